@@ -15,6 +15,8 @@ import (
 
 // directory-tree description shared with the Lean driver:
 //   D <name> <n> child…   F <name> <content>   LF <name> <content>   LD <name>   DG <name>   FI <name>   SO <name>
+//   XD <name>: a directory (with a file inside) that cannot be listed: mode 000, scanned by an unprivileged user
+//   XL <name>: a directory (with a file inside) whose path is too long to be opened (the generator makes it so)
 type node struct {
 	kind    string
 	name    string
@@ -58,17 +60,20 @@ func parseNode(t []string) (*node, []string) {
 	}
 }
 
-// materialise creates the entry under dir; link targets live under tdir (outside the scanned tree).
-func materialise(dir, tdir string, n *node, seq *int) {
-	p := filepath.Join(dir, n.name)
+// materialise creates the entry in the CURRENT directory (relative names only, so that paths longer than PATH_MAX can be
+// built); link targets live under tdir (outside the scanned tree).
+func materialise(tdir string, n *node, seq *int) {
+	p := n.name
 	*seq++
 	switch n.kind {
 	case "D":
 		must(os.Mkdir(p, 0o755))
+		must(os.Chdir(p))
 		// create children in reverse order so that on-disk order differs from sorted order where the FS keeps it
 		for i := len(n.kids) - 1; i >= 0; i-- {
-			materialise(p, tdir, n.kids[i], seq)
+			materialise(tdir, n.kids[i], seq)
 		}
+		must(os.Chdir(".."))
 	case "F":
 		must(os.WriteFile(p, n.content, 0o644))
 	case "LF":
@@ -85,11 +90,39 @@ func materialise(dir, tdir string, n *node, seq *int) {
 	case "FI":
 		must(syscall.Mkfifo(p, 0o644))
 	case "SO":
+		// a socket path is limited to about 100 bytes: bind in the current directory by relative name
 		l, err := net.ListenUnix("unix", &net.UnixAddr{Name: p, Net: "unix"})
 		must(err)
 		l.SetUnlinkOnClose(false)
 		l.Close()
+	case "XD", "XL":
+		must(os.Mkdir(p, 0o755))
+		must(os.WriteFile(filepath.Join(p, "inside"), []byte("c232ab00-9414-11ec-b3c8-9f6bdeced846"), 0o644))
+		if n.kind == "XD" {
+			must(os.Chmod(p, 0))
+		}
 	}
+}
+
+func hasKind(n *node, kind string) bool {
+	if n.kind == kind {
+		return true
+	}
+	for _, k := range n.kids {
+		if hasKind(k, kind) {
+			return true
+		}
+	}
+	return false
+}
+
+// unprivilegedRunPossible: can the harness start the binary as uid 65534 (needs CAP_SETUID)?
+func unprivilegedRunPossible() bool {
+	if os.Getuid() != 0 {
+		return false
+	}
+	r := runCLIAs(65534, "/", []string{"--version"}, nil, nil, 10*time.Second)
+	return r.exit == 0 && !r.timedOut
 }
 
 func must(err error) {
@@ -165,10 +198,25 @@ func runTree(a []string) (string, [][2]string) {
 	must(os.Mkdir(cwd, 0o755))
 	must(os.Mkdir(tdir, 0o755))
 	seq := 0
+	here, _ := os.Getwd()
+	must(os.Chdir(cwd))
 	for _, n := range tops {
-		materialise(cwd, tdir, n, &seq)
+		materialise(tdir, n, &seq)
 	}
-	res := runCLI(cwd, argv, []byte{}, nil, 10*time.Second)
+	must(os.Chdir(here))
+	// a tree with a mode-000 directory is scanned by an unprivileged user (for root every directory is readable)
+	var uid uint32
+	for _, n := range tops {
+		if hasKind(n, "XD") {
+			uid = 65534
+		}
+	}
+	if uid != 0 {
+		for _, d := range []string{os.TempDir(), root} {
+			_ = os.Chmod(d, 0o755)
+		}
+	}
+	res := runCLIAs(uid, cwd, argv, []byte{}, nil, 10*time.Second)
 	// single-file runs of every regular file (the reference the recursive output must equal)
 	var files [][2]string
 	for _, n := range tops {
@@ -176,7 +224,7 @@ func runTree(a []string) (string, [][2]string) {
 	}
 	sort.Slice(files, func(i, j int) bool { return files[i][0] < files[j][0] })
 	for i := range files {
-		r := runCLI(cwd, []string{files[i][0]}, []byte{}, nil, 10*time.Second)
+		r := runCLIAs(uid, cwd, []string{files[i][0]}, []byte{}, nil, 10*time.Second)
 		files[i][1] = hx(r.stdout)
 	}
 	return cliRes(res), files
@@ -337,6 +385,26 @@ func genC10(tier string, r *rng) {
 	emitTree(true, []string{"a?"}, []*node{dir("a?", f("x")), dir("ab", f("y"))})
 	emitTree(true, []string{"*"}, []*node{dir("*", f("x")), dir("ab", f("y")), f("zz")})
 	emitTree(false, []string{"[a]", "a"}, []*node{f("[a]"), f("a")})
+	// directories that cannot be listed: mode 000 met by an unprivileged user (first / middle / last / nested / only entry),
+	// and a chain of long names whose path crosses PATH_MAX (works for every user)
+	if unprivilegedRunPossible() {
+		xd := func(n string) *node { return &node{kind: "XD", name: n} }
+		emitTree(true, []string{"d"}, []*node{dir("d", xd("a"), f("b"), f("c"))})
+		emitTree(true, []string{"d"}, []*node{dir("d", f("a"), xd("b_locked"), dir("c", f("u3")), f("z"))})
+		emitTree(true, []string{"d"}, []*node{dir("d", f("a"), f("b"), xd("c"))})
+		emitTree(true, []string{"d"}, []*node{dir("d", xd("only"))})
+		emitTree(true, []string{"d"}, []*node{dir("d", dir("s", xd("x"), f("y")), f("t"))})
+		emitTree(true, []string{"d", "e"}, []*node{dir("d", xd("lost+found"), f("k")), dir("e", f("m"))})
+	}
+	{
+		long := strings.Repeat("d", 250)
+		// level k directory path: "t" + k*251 bytes; level 16 = 4017 (can be opened), level 17 = 4268 (cannot)
+		cur := dir(long, f("f16"), &node{kind: "XL", name: long}, f("zzz16"))
+		for k := 15; k >= 1; k-- {
+			cur = dir(long, f(fmt.Sprintf("f%d", k)), cur, f(fmt.Sprintf("zzz%d", k)))
+		}
+		emitTree(true, []string{"t"}, []*node{dir("t", f("aaa_before"), cur, f("zzz_after"))})
+	}
 	// byte-identical content under a reserved SSH file name and under other names, in both sort orders
 	keyLine := []byte("ssh-ed25519 AAAAC3NzaC1lZDI1NTE5AAAAIJxs8F0Bk4v0Xx0m9GTPF4k1q1m2Ztd3Gm2YX3R0Qq3x a@b")
 	kh := []byte("example.com ssh-ed25519 AAAAC3NzaC1lZDI1NTE5AAAAIJxs8F0Bk4v0Xx0m9GTPF4k1q1m2Ztd3Gm2YX3R0Qq3x\n")
